@@ -219,6 +219,11 @@ fn c05(quick: bool) -> PropRun {
         ("both-directions", (0..8).map(|i| send(i / 4, i % 2, (i % 3) as u8, MODES[i % 4], if i % 3 == 0 { 3000 } else { 40 + i })).collect(), LwCfg::small()),
         ("ts-burst", vec![send(0, 0, 0, TimeSensitive, 1448), send(0, 0, 0, TimeSensitive, 1448), send(0, 0, 0, TimeSensitive, 1448), send(0, 0, 1, Reliable, 10), send(1, 0, 0, TimeSensitive, 20)], LwCfg { bw: [5000, 5000], ..LwCfg::small() }),
         ("wrap-burst", (0..10).map(|i| send(i / 5, 0, (i % 2) as u8, MODES[i % 3], 30 + i)).collect(), grid[1].clone()),
+        // keep-alive switched off: a TimeSensitive packet that could not start leaves a gap in the sequence ids whose allocation stays charged at
+        // the sender until a sync frame lets the receiver pass it; the next packet needs that room
+        ("ts-gap-small-alloc.keepalive-off", vec![send(0, 0, 0, Unreliable, 10), send(0, 0, 0, TimeSensitive, 8000), send(5, 0, 0, Reliable, 3000), send(6, 0, 1, Unreliable, 30)], LwCfg { pwin: 4096, fwin: 4096, rx_alloc: [10_000, 10_000], keepalive: None, ..LwCfg::small() }),
+        ("ts-burst.keepalive-off", vec![send(0, 0, 0, TimeSensitive, 1448), send(0, 0, 0, TimeSensitive, 1448), send(0, 0, 0, TimeSensitive, 1448), send(0, 0, 1, Reliable, 10), send(1, 0, 0, TimeSensitive, 20)], LwCfg { bw: [5000, 5000], keepalive: None, ..LwCfg::small() }),
+        ("burst-alloc.keepalive-off", (0..5).map(|i| send(0, 0, 0, if i == 2 { Persistent } else { Reliable }, 2000 + i)).collect(), LwCfg { pwin: 8, fwin: 8, rx_alloc: [3 * FRAG, 3 * FRAG], keepalive: None, ..LwCfg::small() }),
     ];
     for (name, ops, cfg) in bursts {
         let si = Arc::new(ScriptInfo::new(ops));
@@ -455,6 +460,11 @@ fn c11(quick: bool) -> PropRun {
                               shifts: &[Shift::Latency(10), Shift::Latency(25), Shift::Cadence(200), Shift::Cadence(1000)] };
             let mut sp = LwSpec { tag: format!("C11.{}", name), cfg: cfg.clone(), script: si.clone(), env, d: if quick { 1 } else { 2 }, oracles: O_C11 | O_C01, probe_round };
             if quick { sp.env.fates = FATES_NONE; sp.env.deltas = leak(&[cadence, 10_000]); }
+            // keep-alive switched off (EndpointConfig::keepalive = false): the sync frames that resynchronise the windows after losses are not keep-alives
+            if cadence == 20 && ["window-fill-small", "window-fill-frames", "alloc-exhausted"].contains(&name) {
+                let mut off = sp.clone(); off.cfg.keepalive = None; off.tag = format!("C11.{}.keepalive-off", name);
+                scs.push(lw_scenario(off));
+            }
             scs.push(lw_scenario(sp));
         }
     }
